@@ -719,13 +719,24 @@ func (s *Server) handleConnectionLoop(conn net.Conn, procHandler *NFSProcedureHa
 
 	connID := fmt.Sprintf("conn-%d", s.nextConnID.Add(1))
 
-	var connRateLimiter *RateLimiter
-	if s.handler != nil {
-		connRateLimiter = s.handler.rateLimiter
+	// The rate limiter belongs to the policy and is replaced by policy updates
+	// (under the policy write lock). It is looked up for every request, under
+	// the read lock, so that a connection opened before an update is limited by
+	// the policy in force now, not by the one in force when it was accepted.
+	currentRateLimiter := func() *RateLimiter {
+		if s.handler == nil {
+			return nil
+		}
+		s.handler.policyRWMu.RLock()
+		defer s.handler.policyRWMu.RUnlock()
+		if !s.handler.policy.Load().EnableRateLimiting {
+			return nil
+		}
+		return s.handler.rateLimiter
 	}
 	defer func() {
-		if connRateLimiter != nil {
-			connRateLimiter.CleanupConnection(connID)
+		if rl := currentRateLimiter(); rl != nil {
+			rl.CleanupConnection(connID)
 		}
 	}()
 
@@ -776,7 +787,7 @@ func (s *Server) handleConnectionLoop(conn net.Conn, procHandler *NFSProcedureHa
 			}
 
 			// Check rate limit
-			if connRateLimiter != nil && s.handler != nil && s.handler.policy.Load().EnableRateLimiting {
+			if connRateLimiter := currentRateLimiter(); connRateLimiter != nil {
 				if !connRateLimiter.AllowRequest(authCtx.ClientIP, connID) {
 					reply := &RPCReply{
 						Header: call.Header,
